@@ -424,12 +424,12 @@ class Decoder:
         self.utab = {int(k): [json.dumps(x) for x in v] for k, v in (utab or {}).items()}
         self.predlog = predlog if predlog is not None else []
 
-    def make_pred(self, f):
+    def make_pred(self, f, variadic=False):
         true_set = set(self.utab.get(f, []))
         log = self.predlog
         w = self.w
 
-        def pred(value):
+        def pred(value, *_params):
             try:
                 e = enc_val(value, w)
             except ValueError:
@@ -439,6 +439,11 @@ class Decoder:
             # odd-numbered predicates answer with a truthy / falsy non-bool (a condition "holds" when its result is truthy)
             return holds if f % 2 == 0 else (6 if holds else 0)
         pred.__name__ = f"upred{f}"
+        if not variadic:
+            def pred1(value):
+                return pred(value)
+            pred1.__name__ = pred.__name__
+            return pred1
         return pred
 
     def ty(self, e):
@@ -484,6 +489,15 @@ class Decoder:
             params = [typing.Any if p[0] == 0 else dec_val(p[1], w) for p in e[3:]]
             if f in self.FN_NAMES:
                 return getattr(odep, self.FN_NAMES[f])(*params, bound=self.ty(e[2]))
+            if params:
+                # a user condition taking parameters (typing.Any = wildcard): the truth table does not look at them, the
+                # type order does
+                key = (f, json.dumps(e[2]), json.dumps(e[3:]))
+                if key not in self.user_types:
+                    if (f, "variadic") not in self.user_types:
+                        self.user_types[(f, "variadic")] = odep.dependent_check(self.make_pred(f, variadic=True))
+                    self.user_types[key] = self.user_types[(f, "variadic")][tuple(params) if len(params) > 1 else params[0]].with_bound(self.ty(e[2]))
+                return self.user_types[key]
             key = (f, json.dumps(e[2]))
             if key not in self.user_types:
                 if f not in self.user_types:
